@@ -24,6 +24,7 @@ VERIF_DIR = os.path.dirname(os.path.dirname(os.path.dirname(os.path.abspath(__fi
 REPO = os.environ.get("VERIF_REPO", "/repo")
 
 EXIT_OK, EXIT_VIOLATION, EXIT_INCONCLUSIVE = 0, 1, 3
+BUDGET_S = 600  # default wall-clock budget per obligation (overridden per tier in run_property)
 
 
 def jsonable(x):
@@ -165,6 +166,8 @@ def run_obligation(ob: Obligation, seed: int, xcheck_budget: int) -> Dict[str, A
             summary["errors"].append(f"path {o.path_id}: harness error: {o.exc}")
         if o.kind == "bound" and not ob.allow_bound:
             summary["errors"].append(f"path {o.path_id}: bound exceeded: {o.exc}")
+        if o.kind == "overflow":
+            summary["errors"].append(f"path budget exhausted: {o.exc}")
         if o.kind == "domain" and not ob.allow_domain:
             summary["errors"].append(f"path {o.path_id}: left the real-number domain: {o.exc}")
         if o.witness is not None and o.results:
@@ -208,10 +211,28 @@ def run_obligation(ob: Obligation, seed: int, xcheck_budget: int) -> Dict[str, A
 _OBS: List[Obligation] = []
 
 
+class _Budget(BaseException):
+    pass
+
+
 def _worker(args):
     i, seed, xb = args
+    import signal
+
+    def on_alarm(signum, frame):
+        raise _Budget()
     try:
-        return run_obligation(_OBS[i], seed, xb)
+        signal.signal(signal.SIGALRM, on_alarm)
+        signal.alarm(int(getattr(_OBS[i], "budget_s", 0) or BUDGET_S))
+        try:
+            return run_obligation(_OBS[i], seed, xb)
+        finally:
+            signal.alarm(0)
+    except _Budget:
+        return {"name": _OBS[i].name, "paths": 0, "feasible_paths": 0, "decisions": 0, "checks": {},
+                "violations": [], "kinds": {}, "errors": [f"wall-clock budget of the obligation exhausted (inconclusive)"],
+                "validated": 0, "validation_failures": [], "unknown": [], "samples": [], "reach_witnesses": 0,
+                "stats": dict(STATS), "xcheck": {}, "xcheck_details": [], "wall_s": float(getattr(_OBS[i], "budget_s", 0) or BUDGET_S)}
     except BaseException as e:  # noqa
         return {"name": _OBS[i].name, "paths": 0, "feasible_paths": 0, "decisions": 0, "checks": {},
                 "violations": [], "kinds": {}, "errors": [f"worker crashed: {type(e).__name__}: {e}\n" + traceback.format_exc()],
@@ -260,6 +281,8 @@ def run_property(mod, tier: str, seed: int, jobs: int = 16, only: Optional[str] 
         obs = [o for o in obs if only in o.name]
     global _OBS
     _OBS = obs
+    global BUDGET_S
+    BUDGET_S = int(os.environ.get("VERIF_OB_BUDGET", "300" if tier == "quick" else "2400"))
     xb = 2 if tier == "quick" else 12
     if os.environ.get("VERIF_NO_XCHECK"):
         xb = 0
